@@ -18,7 +18,7 @@ from vlib.util import check
 PROP = 'C15'
 LEVEL = 'fault_enumeration'
 SHARDS = {'quick': 8, 'thorough': 16}
-TIMEOUT = {'quick': 400, 'thorough': 3400}
+TIMEOUT = {'quick': 1000, 'thorough': 3500}
 N_GROUPS = {'quick': 32, 'thorough': 640}
 GROUP = 8
 RULE = ('cases: seeded batch_run calls on a self-identifying fixture model: grids of 1-4 parameters (1-12 combinations; lists, tuples, ranges, '
@@ -37,6 +37,7 @@ FLOORS = {'quick': {'batches': 100, 'executions_checked': 350, 'records_checked'
                     'limit_above_completion': 15, 'multi_collector_batches': 20, 'procs_1': 20, 'procs_2_4': 20, 'procs_5_8': 8, 'procs_9_16': 8},
           'thorough': {'batches': 3000, 'fault_batches': 1000, 'reordered_batches': 200, 'procs_9_16': 200}}
 EXHAUSTIVE = {}
+HUNG = []
 
 
 def gen_grid(rng):
@@ -127,11 +128,18 @@ def run_child(specs):
         with os.fdopen(fd, 'w') as f:
             json.dump(js, f)
         env = dict(os.environ, VERIF_REPO=repo_root(), PYTHONHASHSEED='0', PYTHONDONTWRITEBYTECODE='1')
-        try:
-            r = subprocess.run([sys.executable, '-B', os.path.join(here, 'vlib', 'fixtures', 'batch_child.py'), path], capture_output=True,
-                               text=True, timeout=180, env=env, cwd=here)
-        except subprocess.TimeoutExpired:
-            raise Inconclusive('a batch child interpreter hung (pool never returned) - watchdog')
+        r = None
+        for attempt in range(3):
+            # A multiprocessing.Pool can (rarely, on a loaded machine) hang in CPython itself; a hang is retried in a fresh
+            # interpreter and only three hangs in a row make the run inconclusive.  It is never counted as 'held' or 'violated'.
+            try:
+                r = subprocess.run([sys.executable, '-B', os.path.join(here, 'vlib', 'fixtures', 'batch_child.py'), path], capture_output=True,
+                                   text=True, timeout=240, env=env, cwd=here)
+                break
+            except subprocess.TimeoutExpired:
+                HUNG.append([s['id'] for s in specs])
+        if r is None:
+            raise Inconclusive('a batch child interpreter hung three times in a row (pool never returned) - watchdog')
         outs = {}
         for line in r.stdout.splitlines():
             try:
@@ -285,6 +293,9 @@ def run(ctx):
     for i in range(N_GROUPS[ctx.tier]):
         if ctx.mine(i) and not ctx.full():
             ctx.run_case({'kind': 'group', 'i': i}, run_case)
+    if HUNG:
+        ctx.count('hung_children_retried', len(HUNG))
+        ctx.notes.append({'hung_children_retried': HUNG[:5]})
 
 
 def replay(ctx, case):
